@@ -218,7 +218,44 @@ def bits_per_byte_rule(chk: Check, eng: Engine) -> None:
         raise AnalysisError(f"TreeValue.to_bits: only {n_br} payload branch(es) found")
 
 
+def pending_bits_rule(chk: Check, eng: Engine) -> None:
+    """R09-e.  A TreeValue is a payload plus pending bits (`_trailing_bits`).  TreeValue.append builds the value of the concatenation; on every
+    path that returns a combined value the pending bits of the left operand must survive: they are passed on (`trailing_bits=` built from
+    `self._trailing_bits`), or they were folded into the payload by the flush (`self._reduce_trailing_bits(...)`) before, or the left operand
+    is the empty value.  A return that does none of this drops bits - or skips the alignment error the flush raises."""
+    tv = eng.cls("fandango.language.tree_value", "TreeValue")
+    ap = eng.method(tv, "append", inherited=False)
+    cfg = eng.cfg(ap)
+    flush = [n.id for n in cfg.nodes if n.kind == "stmt" and n.ast is not None and any(
+        isinstance(c, ast.Call) and self_attr(c.func) == "_reduce_trailing_bits" for c in ast.walk(n.ast))]
+    if not flush:
+        raise AnalysisError("TreeValue.append: the flush of the pending bits (_reduce_trailing_bits) was not found")
+    bit_locals = {t.id for a in walk_local(ap.node) if isinstance(a, ast.Assign) and any(self_attr(x) == "_trailing_bits" for x in ast.walk(a.value)) for t in a.targets if isinstance(t, ast.Name)}
+    empty_ifs = [n for n in cfg.nodes if n.kind == "if" and "EMPTY" in norm(n.ast.test) and "self" in norm(n.ast.test)]  # type: ignore[union-attr]
+    empty_region = set()
+    for e in empty_ifs:
+        empty_region |= cfg.true_branch_nodes(e.id)
+    rets = [n for n in cfg.nodes if n.kind == "stmt" and isinstance(n.ast, ast.Return) and isinstance(n.ast.value, ast.Call) and call_name(n.ast.value) == "TreeValue"]
+    if len(rets) < 4:
+        raise AnalysisError(f"TreeValue.append: only {len(rets)} returns of a combined value found")
+    for r in rets:
+        carries = any(self_attr(x) == "_trailing_bits" or (isinstance(x, ast.Name) and x.id in bit_locals) for x in ast.walk(r.ast.value))  # type: ignore[union-attr]
+        unflushed = cfg.find_path(cfg.entry, [r.id], avoid=flush, ignore=("exc-out", "raise-out"))
+        if carries:
+            chk.ok("R09-e", ap.fq, r.line, f"`{short(r.ast, 60)}` passes the left operand's pending bits on")
+        elif r.id in empty_region:
+            chk.ok("R09-e", ap.fq, r.line, f"`{short(r.ast, 60)}`: the left operand is the empty value (no pending bits)")
+        elif unflushed is None:
+            chk.ok("R09-e", ap.fq, r.line, f"`{short(r.ast, 60)}` is reached only after the pending bits were flushed into the payload")
+        else:
+            chk.bad("R09-e", eng.relfile(ap), r.line, ap.fq, f"`{short(r.ast, 70)}` can be reached before the flush and does not carry `self._trailing_bits`",
+                    "text followed by bit leaves followed by text loses the bits (or skips the 'not a multiple of 8' error): the value of a tree depends on how its leaves are "
+                    "nested, and bytes / bits / text views disagree", path=cfg.describe_path(unflushed), keyparts="pending-bits-dropped")
+
+
 def run(chk: Check, eng: Engine) -> None:
+    chk.rule("R09-e", "TreeValue.append never drops the pending bits of its left operand: they are passed on, flushed before, or there are none", floor=4)
+    pending_bits_rule(chk, eng)
     chk.rule("R09-d", "the bit view has exactly eight characters per payload byte, for every payload length including zero", floor=2)
     bits_per_byte_rule(chk, eng)
     chk.rule("R09-a", "no codec value of one role (text->bytes / bytes->text) reaches a sink of the other role", floor=15)
@@ -449,6 +486,9 @@ from ..mutants import M  # noqa: E402
 _TV = "src/fandango/language/tree_value.py"
 _T = "src/fandango/language/tree.py"
 MUTANTS = [
+    M("text-plus-text-before-the-flush", _TV, "        # flush bits, will set self._value\n        self._reduce_trailing_bits(str_to_bytes_encoding=str_to_bytes_encoding)\n\n        if isinstance(self._value, str):\n",
+      "        if isinstance(self._value, str) and isinstance(other._value, str):\n            return TreeValue(self._value + other._value, trailing_bits=other._trailing_bits)\n\n        # flush bits, will set self._value\n        self._reduce_trailing_bits(str_to_bytes_encoding=str_to_bytes_encoding)\n\n        if isinstance(self._value, str):\n", "R09-e"),
+    M("payloadless-operand-forgets-left-bits", _TV, "            trailing_bits = self._trailing_bits + other._trailing_bits\n            return TreeValue(self._value, trailing_bits=trailing_bits)\n", "            return TreeValue(self._value, trailing_bits=other._trailing_bits)\n", "R09-e"),
     M("bits-by-whole-integer-format", _TV, "            value = \"\".join(f\"{byte_:08b}\" for byte_ in self._value)\n", "            value = f\"{int.from_bytes(self._value, byteorder='big'):0{8 * len(self._value)}b}\"\n", "R09-d"),
     M("bits-unpadded", _TV, "            value = \"\".join(f\"{byte_:08b}\" for byte_ in self._value)\n", "            value = \"\".join(f\"{byte_:b}\" for byte_ in self._value)\n", "R09-d"),
     M("to-string-flush-with-b2s", _TV, "        self._reduce_trailing_bits(str_to_bytes_encoding=STRING_TO_BYTES_ENCODING)\n        if isinstance(self._value, str):\n            return self._value\n        if isinstance(self._value, bytes):\n            return _bytes_to_str",
